@@ -296,6 +296,10 @@ func (in *Interp) readFrame(fr *frame, src Value) Value {
 		if raw.F["closed"] != nil {
 			return Tuple{(*Value)(nil), in.newError(CStr("read: use of closed network connection"), nil)}
 		}
+		if raw.F["deadlineStale"] != nil {
+			in.emit("read.timeout", in.connName(src))
+			return Tuple{(*Value)(nil), in.newError(CStr("i/o timeout"), nil)}
+		}
 		if raw.n >= len(raw.feed) {
 			in.emit("read.eof", in.connName(src))
 			return Tuple{(*Value)(nil), in.externalGlobalByName("io.EOF")}
@@ -948,6 +952,40 @@ func registerEnvIntrinsics() {
 		o.n += n
 		return n > 0, true
 	}
+	// certificates issued by a parent other than themselves (leaf certificates): counted
+	// when their template lets the holder sign further certificates (IsCA / KeyUsageCertSign),
+	// which would let a certificate the configured CA never issued verify against its pool
+	I["crypto/x509.CreateCertificate"] = func(in *Interp, fr *frame, args []Value) (Value, bool) {
+		tmpl, _ := args[1].(*Value)
+		parent, _ := args[2].(*Value)
+		if tmpl != nil && parent != nil && tmpl != parent {
+			if st, ok := (*tmpl).(Struct); ok {
+				ct := in.namedType("crypto/x509", "Certificate").Underlying().(*types.Struct)
+				signer := false
+				for i := 0; i < ct.NumFields(); i++ {
+					switch ct.Field(i).Name() {
+					case "IsCA":
+						if b, ok := st[i].(bool); !ok {
+							in.unsupported("x509.CreateCertificate with symbolic IsCA")
+						} else if b {
+							signer = true
+						}
+					case "KeyUsage":
+						if k, ok := st[i].(Int); !ok {
+							in.unsupported("x509.CreateCertificate with symbolic KeyUsage")
+						} else if k&32 != 0 { // x509.KeyUsageCertSign
+							signer = true
+						}
+					}
+				}
+				in.issuedLeaves++
+				if signer {
+					in.issuedSigners++
+				}
+			}
+		}
+		return in.opaqueResult(fr.in.P.Pkgs["crypto/x509"].Func("CreateCertificate").Signature.Results()), true
+	}
 	I["(*crypto/x509.CertPool).AddCert"] = func(in *Interp, fr *frame, args []Value) (Value, bool) {
 		in.sideObj(args[0], "certpool").n++
 		return nil, true
@@ -1428,14 +1466,23 @@ func (in *Interp) objMethod(fr *frame, o *Obj, name string, args []Value) Value 
 			if timeIsZero(args[0]) {
 				// the zero Time clears the deadline
 				delete(o.F, "deadline")
+				delete(o.F, "deadlineStale")
 				if name == "SetDeadline" {
 					delete(o.F, "wdeadline")
 				}
 				return Iface{}
 			}
 			o.F["deadline"] = true
+			delete(o.F, "deadlineStale")
+			if st, ok := args[0].(Struct); ok && len(st) >= 2 {
+				if e, ok := st[1].(Int); ok && e == 2 && in.deadlineState(args[0]) == "expired" {
+					// a deadline computed from an old clock reading: already in the past when
+					// it is set, so every read fails at once (even with data waiting)
+					o.F["deadlineStale"] = true
+				}
+			}
 			if name == "SetDeadline" {
-				o.F["wdeadline"] = deadlineState(args[0])
+				o.F["wdeadline"] = in.deadlineState(args[0])
 			}
 			return Iface{}
 		case "SetWriteDeadline":
@@ -1447,7 +1494,7 @@ func (in *Interp) objMethod(fr *frame, o *Obj, name string, args []Value) Value 
 				delete(o.F, "wdeadline")
 				return Iface{}
 			}
-			o.F["wdeadline"] = deadlineState(args[0])
+			o.F["wdeadline"] = in.deadlineState(args[0])
 			delete(o.F, "wdeadlinePassed") // a new deadline: whether time runs past it is a new question
 			return Iface{}
 		case "RemoteAddr", "LocalAddr":
@@ -1673,10 +1720,13 @@ func (in *Interp) simpleFilterText(fr *frame, p *Value) (Str, bool) {
 
 // deadlineState: "expired" for an instant that is not later than now (the model's
 // time.Now()), "armed" for one in the future (time.Now().Add(d), d > 0).
-func deadlineState(t Value) string {
+func (in *Interp) deadlineState(t Value) string {
 	st, ok := t.(Struct)
 	if ok && len(st) >= 2 {
 		if e, ok := st[1].(Int); ok && e == 2 {
+			if w, ok := st[0].(Int); ok && int(w) < in.clockEpoch {
+				return "expired" // now+d of a clock reading taken a long time ago
+			}
 			return "armed"
 		}
 	}
